@@ -4,6 +4,7 @@ CONSTANTS
   Ops <- OpNames
   Variant = "ok"
   MaxPar = 2
+  MaxOps = 0
   Gen = FALSE
 INIT Init
 NEXT Next
